@@ -849,11 +849,11 @@ async def _mid_transfer(loop, backend, verb, looks):
         await loop.settle()
         out["b"] = []
         for line in looks:
-            if line.split(" ")[0] in ("LIST", "MLSD"):
+            if line.split(" ")[0] in ("LIST", "MLSD", "RETR"):
                 await W.run_line(wd, b, b"EPSV")
                 await W.data_connect(wd, b)
             codes, _, data, listing = await W.run_line(wd, b, line.encode())
-            out["b"].append((line, codes))
+            out["b"].append((line, codes) + ((len(data or b""), (data or b"") == big[len(big) - len(data or b"") :]) if line.startswith("RETR") else ()))
         if verb == "RETR":
             sp.hold = False
             sp._schedule_pump()
@@ -895,7 +895,9 @@ def _mid_job(args):
 
 def _mid_transfers(ctx, res):
     for verb in ("RETR", "STOR"):
-        for looks in (["MLST big.bin"], ["LIST"], ["MLSD"], ["MLST big.bin", "MLST big.bin", "LIST"]):
+        for looks in (["MLST big.bin"], ["LIST"], ["MLSD"], ["MLST big.bin", "MLST big.bin", "LIST"], ["RETR big.bin"], ["REST 100", "RETR big.bin"]):
+            if verb == "STOR" and any(x.startswith("RETR") for x in looks):
+                continue  # a reader beside a writer of the same file sees what the writer has written so far: timing, not backend
             outs = [_mid_job((b, verb, looks)) for b in ("memory", "pathio", "async")]
             res.cases += 1
             res.count("two_sessions_mid_transfer")
@@ -911,6 +913,101 @@ def _mid_transfers(ctx, res):
                     res.oracle_failures.append({"input": inp, "what": "another session looked at the file in the middle of a %s: memory and %s differ in %r (memory: %r; %s: %r)" % (
                         verb, name, diff, {k: m[k] for k in diff if k != "tree"}, name, {k: o.get(k) for k in diff if k != "tree"}), "signature": "C18:two-sessions:backends-differ"})
                     break
+
+
+# ---- several files opened on one node of MemoryPathIO: real backend vs Model.MemHandles -----------------------------
+def gen_memh(ctx):
+    rng = ctx.rng
+    out = [
+        ([10, 11, 12, 13, 14], [("o", 0, 0), ("r", 0, 2), ("o", 1, 0), ("r", 1, 9), ("r", 1, 9), ("r", 0, 2)]),
+        ([10, 11, 12, 13, 14], [("o", 0, 0), ("r", 0, 2), ("o", 1, 2), ("r", 1, 2), ("p", 0), ("r", 0, 2), ("r", 1, 2), ("r", 0, 2), ("r", 1, 2), ("r", 0, 2)]),
+    ]
+    for _ in range(ctx.pick(400, 6000)):
+        content = [rng.randrange(256) for _ in range(rng.choice([0, 1, 3, 7, 16, 40]))]
+        evs, opened = [], []
+        for _ in range(rng.randint(2, 14)):
+            k = rng.random()
+            if not opened or k < 0.2:
+                h = rng.randrange(4)
+                evs.append(("o", h, rng.choice([0, 0, 0, 1, 3, len(content), len(content) + 2])))
+                if h not in opened:
+                    opened.append(h)
+            elif k < 0.9:
+                evs.append(("r", rng.choice(opened), rng.choice([0, 1, 2, 4, 8, 64])))
+            else:
+                evs.append(("p", rng.choice([0, 1, len(content), len(content) + 5])))
+        out.append((content, evs))
+    return out
+
+
+def _memh_line(content, evs):
+    ev = ",".join("p%d" % e[1] if e[0] == "p" else "%s%d:%d" % e for e in evs) or "~"
+    return "memh %s %s" % (bytes(content).hex() or "-", ev)
+
+
+def _memh_impl(content, evs):
+    import asyncio
+    import pathlib
+
+    import aioftp
+
+    async def go():
+        pio = aioftp.MemoryPathIO()
+        p = pathlib.PurePosixPath("/f")
+        f = await pio._open(p, "wb")
+        await pio.write(f, bytes(content))
+        node = pio.get_node(p)
+        files, got, done, start = {}, {}, {}, {}
+        for e in evs:
+            if e[0] == "o":
+                f = await pio._open(p, "rb")
+                await pio.seek(f, e[2])
+                files[e[1]], got[e[1]], done[e[1]], start[e[1]] = f, b"", False, e[2]
+            elif e[0] == "r":
+                data = await pio.read(files[e[1]], e[2])
+                got[e[1]] += data
+                done[e[1]] = done[e[1]] or (e[2] > 0 and not data)
+            else:
+                node.content.seek(e[1])
+        toks = []
+        for h in range(4):
+            if h in files:
+                f = files[h]
+                pos = f.position if hasattr(f, "position") else f.tell()
+                toks.append("%s:%d:%d:%d" % (got[h].hex() or "-", 1 if done[h] else 0, start[h], pos))
+            else:
+                toks.append("-:0:0:0")
+        return "|".join(toks)
+
+    try:
+        return asyncio.run(go())
+    except Exception as e:  # noqa
+        return "EXC:%s" % type(e).__name__
+
+
+def _mem_handles(ctx, compare=True):
+    res = Result()
+    cases = gen_memh(ctx)
+    impl = [_memh_impl(c, e) for c, e in cases]
+    model = drive([_memh_line(c, e) for c, e in cases]) if compare else [None] * len(cases)
+    for (content, evs), i, m in zip(cases, impl, model):
+        res.cases += 1
+        res.count("memh:files=%d" % len({e[1] for e in evs if e[0] == "o"}))
+        res.distinct.add(("memh", tuple(content), tuple(evs)))
+        inp = {"level": "memory-handles", "content": content, "events": [list(e) for e in evs]}
+        if compare and i != m:
+            res.disagreements.append({"correspondence": "MemoryPathIO open files vs Model.MemHandles.runNow", "input": inp, "impl": i, "model": m})
+        if i.startswith("EXC:"):
+            res.oracle_failures.append({"input": inp, "what": "reading files opened on one node raised " + i, "signature": "C18:memory:open-files-of-one-node"})
+            continue
+        for h, tok in enumerate(i.split("|")):
+            got, done, start, pos = tok.split(":")
+            want = bytes(content)[int(start) :].hex() or "-"
+            if done == "1" and got != want:
+                res.oracle_failures.append({"input": inp, "what": "MemoryPathIO: file %d, opened at %s on a node of %d bytes beside other open files, saw the end after %d bytes (a file of PathIO has its own position and gets %d)" % (
+                    h, start, len(content), 0 if got == "-" else len(got) // 2, max(0, len(content) - int(start))), "signature": "C18:memory:open-files-share-a-position"})
+                break
+    return res
 
 
 def two_session_scripts(ctx):
@@ -961,6 +1058,7 @@ def _run(ctx, compare=True, extra_ftp=(), extra_api=()):
     seqs = list(extra_api) + gen_api(ctx)
     res.merge(_api(ctx, seqs, gen_api_interleaved(ctx), compare))
     res.merge(_two_sessions(ctx))
+    res.merge(_mem_handles(ctx, compare))
     res.samples = [
         {"level": "ftp", "commands": PREFIX + hist[len(hist) // 2][1]},
         {"level": "ftp", "commands": PREFIX + hist[-1][1]},
@@ -1013,6 +1111,15 @@ def _replay_two(inp):
 def replay(ctx, doc):
     if doc["failure"]["input"].get("level") == "ftp-two-sessions":
         return _replay_two(doc["failure"]["input"])
+    if doc["failure"]["input"].get("level") == "memory-handles":
+        i = doc["failure"]["input"]
+        out = _memh_impl(i["content"], [tuple(e) for e in i["events"]])
+        print("MemoryPathIO:", out)
+        bad = out.startswith("EXC:")
+        for tok in ([] if bad else out.split("|")):
+            got, done, start, pos = tok.split(":")
+            bad = bad or (done == "1" and got != (bytes(i["content"])[int(start) :].hex() or "-"))
+        return bad
     if doc["failure"]["input"].get("level") == "ftp-mid-transfer":
         i = doc["failure"]["input"]
         outs = [_mid_job((b, i["transfer"], i["other_session"])) for b in ("memory", "pathio", "async")]
